@@ -88,6 +88,8 @@ def parseCmd : P (Cmd sig) := do
   | "ESSET" => kv .set
   | "EINCR" => k1 .incr
   | "ESINCR" => k1 .incr
+  -- a multi-call read-modify-write script (GET, +1 in Lua, SET): an increment iff it is one atomic step
+  | "XINCR" => k1 .incr
   | "SETNX" => kv .setnx
   | "APPEND" => kv .append
   | "STRLEN" => k1 .strlen
